@@ -94,6 +94,54 @@ fn far(a: &Integer, b: &Integer) -> bool {
     (a - b).complete().significant_bits() >= 65
 }
 
+/// The second parts of the square decompositions inside every embedded range proof, recomputed by the witness
+/// holder: x_a = 2^T x - aa, x_b = bb - 2^T x, x_*_2 = x_* - floor(sqrt(x_*))^2.  `E_a_2` / `E_b_2` must not be the
+/// bare powers g^(x_a_2) / g^(x_b_2): without the h-part a recipient confirms a guessed committed value by
+/// recomputing that power.  Returns (range proof path, field) of the first bare power.
+pub fn unblinded_range_parts(v: &View, lm: u32, le: u32, ln: u32) -> Option<(String, &'static str)> {
+    let iv_x = (Integer::from(0), Integer::from(2).pow(lm) - 1u32);
+    let iv_e = (Integer::from(2).pow(le - 1) + 1u32, Integer::from(2).pow(le) - 1u32);
+    let iv_r = (Integer::from(0), Integer::from(2).pow(ln) - 1u32);
+    let secret_named = |needle: &str| v.secrets.iter().find(|s| s.0.contains(needle)).map(|s| s.1.clone());
+    // (path, interval, committed value, base g)
+    let mut rps: Vec<(String, (Integer, Integer), Integer, Integer)> = vec![];
+    if v.kind.starts_with("issuance") {
+        for (k, (i, val)) in v.hidden_vals.iter().enumerate() {
+            rps.push((format!("/CL03/range_proofs_mi/{}", k), iv_x.clone(), val.clone(), v.a_bases.get(*i)?.clone()));
+        }
+        if let Some(r) = secret_named("randomness r of the commitment C") {
+            rps.push(("/CL03/range_proof_r".into(), iv_r, r, v.a_bases.first()?.clone()));
+        }
+    } else {
+        if let Some(e) = secret_named("signature exponent e") {
+            rps.push(("/CL03/range_proof_e".into(), iv_e, e, v.g_bases.first()?.clone()));
+        }
+        for (k, (i, val)) in v.hidden_vals.iter().enumerate() {
+            rps.push((format!("/CL03/range_proofs_commited_mi/{}", k), iv_x.clone(), val.clone(), v.g_bases.get(*i)?.clone()));
+        }
+    }
+    let n = &v.issuer_n;
+    for (path, (a, b), x, g) in &rps {
+        let Some(node) = v.proof.pointer(path) else { continue };
+        let (aa, bb, t_big) = tolerance_params(a, b);
+        let xs: Integer = (x.clone() << t_big).into();
+        let (xa, xb) = ((&xs - &aa).complete(), (&bb - &xs).complete());
+        if xa < 0 || xb < 0 {
+            continue;
+        }
+        let xa2: Integer = &xa - xa.clone().sqrt().square();
+        let xb2: Integer = &xb - xb.clone().sqrt().square();
+        for (field, x2) in [("E_a_2", xa2), ("E_b_2", xb2)] {
+            if let Some(e2) = int_of(&node["proof_of_tolerance"][field]) {
+                if e2 == pow(g, &x2, n) {
+                    return Some((path.clone(), field));
+                }
+            }
+        }
+    }
+    None
+}
+
 pub fn check_view<CS: CLCiphersuite>(rep: &Report, ck: &str, c: &Case, v: &View) -> CheckResult {
     let cj = |d: Value| json!({"case": c, "kind": v.kind, "hidden": v.hidden, "detail": d});
     let chals = match public_challenges(v) {
@@ -246,6 +294,16 @@ pub fn check_view<CS: CLCiphersuite>(rep: &Report, ck: &str, c: &Case, v: &View)
                 cj(json!({"s": p1, "s_prime": p2})),
             );
         }
+    }
+    // (3a) range proofs: the commitments to the second parts of the square decompositions carry their h-part
+    rep.eval(ck, 1);
+    if let Some((path, field)) = unblinded_range_parts(v, CS::lm, CS::le, CS::ln) {
+        return rep.fail(
+            ck,
+            &format!("range-proof-part-not-blinded:{}:{}:{}", v.kind, generic_path(&path), field),
+            format!("{}: {}/proof_of_tolerance/{} is the bare power g^x of the second part of the square decomposition of the committed value: a recipient confirms a guessed value by recomputing it", v.kind, path, field),
+            cj(json!({"range_proof": path, "field": field})),
+        );
     }
     // (3) range proofs: the responses answer for the square roots of (2^T x - aa) and (bb - 2^T x)
     let lm = CS::lm;
@@ -422,7 +480,7 @@ pub fn run(ctx: &Ctx, rep: &Report) -> Meta {
                attacker program: every Fiat-Shamir challenge recomputable from public data (stored ones, C and C mod 2^128 of the interval proofs, and the (t, s1, s2) proofs' challenges recomputed as the verifier does and validated against the verification equation); \
                no response is congruent to 0 or 1 modulo a challenge (unblinded response, no secret needed); for every integer leaf s, every such challenge c and every other leaf s': | floor(s/c) - x | >= 2^64 and | floor(s/s') - x | >= 2^64 for every secret x the prover holds (hidden attributes, e, s, the randomness of C and of the trusted commitment); \
                additionally, with hidden attributes forced to 0 / 1, the response answering for each hidden attribute divided by its own challenge (sound for small values); for every square proof of every embedded range proof the public inverse map floor((floor(d/c)^2 + aa)/2^T), floor((bb - floor(d/c)^2)/2^T) must be >= 2^64 away from the committed value (hidden attribute, e, r); \
-               long-lived prover threads generate 36 (quick) / 200 (thorough) proofs each in sequence, every one judged, after the thread has drawn a number of words just below 2^14 ... 2^20 (a different power of two per thread); positive control: an under-blinded response is flagged, a properly blinded one is not; non-trivial = proof with >= 1 hidden attribute; evaluations = quotients judged"
+               the commitments E_a_2 / E_b_2 of every embedded range proof are not the bare powers g^x of the recomputed second parts; long-lived prover threads generate 36 (quick) / 200 (thorough) proofs each in sequence, every one judged, after the thread has drawn a number of words just below 2^14 ... 2^20 (a different power of two per thread); positive control: an under-blinded response is flagged, a properly blinded one is not; non-trivial = proof with >= 1 hidden attribute; evaluations = quotients judged"
             .into(),
         assumptions: vec![
             "randomness of the commitments made inside proof generation (rx, rw, re, w, r_i) is not known to the harness and is judged only where the division yields a known secret".into(),
